@@ -493,19 +493,28 @@ structure ApplyRes where
   n : Net
   t : Tbl
 
+/-- a buffered PDU could not be applied: if the undo did not restore the tables, purge this socket's
+    records; the socket goes to RTR_ERROR_FATAL -/
+def applyFail (undone : Bool) (c : Conn) (n : Net) (t : Tbl) : ApplyRes :=
+  let t := if undone then t else t.purge
+  match changeState c n t.own .errFatal with
+  | (c, n) => { ok := false, purged := !undone, c := c, n := n, t := t }
+
+/-- a reload swaps the shadow tables in -/
+def Tbl.swapIn (t : Tbl) : Tbl :=
+  match t.shadow with
+  | some u => { pt := u.pt, kt := u.kt, shadow := none }
+  | none => t
+
 /-- the table part of the End of Data branch, once the PDUs are buffered: apply the three arrays in
     order; on a failure undo in forward order, purge if the undo fails -/
 def applyTables (c : Conn) (n : Net) (t : Tbl) (resetting : Bool) (v4 v6 keys : List (List Nat)) : ApplyRes :=
   -- shadow tables: copies without this socket's records
   let t := if resetting then { t with shadow := some ⟨ptSrcRemove t.pt 0, ktSrcRemove t.kt 0⟩ } else t
-  let fail := fun (undone : Bool) (c : Conn) (n : Net) (t : Tbl) =>
-    let t := if undone then t else t.purge
-    match changeState c n t.own .errFatal with
-    | (c, n) => ({ ok := false, purged := !undone, c := c, n := n, t := t } : ApplyRes)
   match applyPfx c n t v4 [] with
   | (ok4, c, n, t, done4) =>
   if !ok4 then
-    match undoAllPfx t done4 with | (undone, t) => fail undone c n t
+    match undoAllPfx t done4 with | (undone, t) => applyFail undone c n t
   else
     match applyPfx c n t v6 [] with
     | (ok6, c, n, t, done6) =>
@@ -513,7 +522,7 @@ def applyTables (c : Conn) (n : Net) (t : Tbl) (resetting : Bool) (v4 v6 keys : 
       match undoAllPfx t v4 with
       | (un4, t) =>
         match (if un4 then undoAllPfx t done6 else (false, t)) with
-        | (un6, t) => fail (un4 && un6) c n t
+        | (un6, t) => applyFail (un4 && un6) c n t
     else
       match applyKey c n t keys [] with
       | (okk, c, n, t, donek) =>
@@ -523,13 +532,8 @@ def applyTables (c : Conn) (n : Net) (t : Tbl) (resetting : Bool) (v4 v6 keys : 
           match (if un4 then undoAllPfx t v6 else (false, t)) with
           | (un6, t) =>
             match (if un4 && un6 then undoAllKey t donek else (false, t)) with
-            | (unk, t) => fail (un4 && un6 && unk) c n t
-      else
-        -- success: a reload swaps the shadow tables in
-        let t := match t.shadow with
-          | some u => ({ pt := u.pt, kt := u.kt, shadow := none } : Tbl)
-          | none => t
-        { ok := true, purged := false, c := c, n := n, t := t }
+            | (unk, t) => applyFail (un4 && un6 && unk) c n t
+      else { ok := true, purged := false, c := c, n := n, t := t.swapIn }
 
 /-- the End of Data branch: intervals, tables, serial number -/
 def applyBuffered (st : St) (eod : List Nat) (v4 v6 keys : List (List Nat)) : Bool × St :=
@@ -543,17 +547,25 @@ def applyBuffered (st : St) (eod : List Nat) (v4 v6 keys : List (List Nat)) : Bo
 def cleanup (r : Bool × St) : Bool × St :=
   (r.1, { r.2 with t := { r.2.t with shadow := none }, ss := { r.2.ss with isResetting := false } })
 
+/-- ghost output of a synchronisation: the End of Data PDU and the buffered Prefix / Router Key PDUs -/
+structure Buffered where
+  eod : List Nat
+  v4 : List (List Nat)
+  v6 : List (List Nat)
+  keys : List (List Nat)
+
 /-- the receive loop of `rtr_sync_receive_and_store_pdus`; `true` = RTR_SUCCESS.
-    `fuel` bounds the number of PDUs (every iteration consumes at least 8 bytes of tape or ends). -/
-def recvAndStore : Nat → St → List (List Nat) → List (List Nat) → List (List Nat) → Bool × St
-  | 0, st, _, _, _ => (false, st)
+    `fuel` bounds the number of PDUs (every iteration consumes at least 8 bytes of tape or ends).
+    The third component is ghost: what was buffered when the End of Data branch ran. -/
+def recvAndStore : Nat → St → List (List Nat) → List (List Nat) → List (List Nat) → Bool × St × Option Buffered
+  | 0, st, _, _, _ => (false, st, none)
   | fuel + 1, st, v4, v6, keys =>
     match receivePdu st.c st.n st.t.own Gen.RTR_RECV_TIMEOUT with
     | (.rc code, c, n) =>
       if code = -2 then
         match changeState c n st.t.own .errTransport with
-        | (c, n) => cleanup (false, { st with c := c, n := n })
-      else cleanup (false, { st with c := c, n := n })
+        | (c, n) => match cleanup (false, { st with c := c, n := n }) with | (ok, st) => (ok, st, none)
+      else match cleanup (false, { st with c := c, n := n }) with | (ok, st) => (ok, st, none)
     | (.ok raw, c, n) =>
       let st := { st with c := c, n := n }
       match typeOf raw with
@@ -565,15 +577,15 @@ def recvAndStore : Nat → St → List (List Nat) → List (List Nat) → List (
           match sendErrorFromHost st.c st.n raw raw.length 0 (txtEodSession st.ss.session (be16 raw 2)) with
           | (_, n) =>
             match changeState st.c n st.t.own .errFatal with
-            | (c, n) => cleanup (false, { st with c := c, n := n })
-        else cleanup (applyBuffered st raw v4 v6 keys)
+            | (c, n) => match cleanup (false, { st with c := c, n := n }) with | (ok, st) => (ok, st, none)
+        else match cleanup (applyBuffered st raw v4 v6 keys) with | (ok, st) => (ok, st, some ⟨raw, v4, v6, keys⟩)
       | 10 =>
         match handleErrorPdu st.c st.n st.t.own raw with
-        | (c, n) => cleanup (false, { st with c := c, n := n })
+        | (c, n) => match cleanup (false, { st with c := c, n := n }) with | (ok, st) => (ok, st, none)
       | 0 => recvAndStore fuel st v4 v6 keys                    -- Serial Notify is ignored
       | _ =>
         match sendErrorFromHost st.c st.n raw 8 0 txtUnexpectedSync with
-        | (_, n) => cleanup (false, { st with n := n })
+        | (_, n) => match cleanup (false, { st with n := n }) with | (ok, st) => (ok, st, none)
 
 /-- the first loop of `rtr_sync`: skip Serial Notify PDUs; `none` = the exchange failed here -/
 def syncFirst : Nat → St → Option (List Nat) × St
@@ -591,27 +603,30 @@ def syncFirst : Nat → St → Option (List Nat) × St
     | (.ok raw, c, n) =>
       if typeOf raw = 0 then syncFirst fuel { st with c := c, n := n } else (some raw, { st with c := c, n := n })
 
-/-- `rtr_sync`; `true` = RTR_SUCCESS -/
-def sync (fuel : Nat) (st : St) : Bool × St :=
+/-- `rtr_sync` with its ghost output (the Cache Response PDU and what was buffered) -/
+def syncG (fuel : Nat) (st : St) : Bool × St × Option (List Nat × Buffered) :=
   match syncFirst fuel st with
-  | (none, st) => (false, st)
+  | (none, st) => (false, st, none)
   | (some raw, st) =>
     match typeOf raw with
-    | 10 => match handleErrorPdu st.c st.n st.t.own raw with | (c, n) => (false, { st with c := c, n := n })
-    | 8 => match changeState st.c st.n st.t.own .errNoIncr with | (c, n) => (false, { st with c := c, n := n })
+    | 10 => match handleErrorPdu st.c st.n st.t.own raw with | (c, n) => (false, { st with c := c, n := n }, none)
+    | 8 => match changeState st.c st.n st.t.own .errNoIncr with | (c, n) => (false, { st with c := c, n := n }, none)
     | 3 =>
       match handleCacheResponse st.c st.ss st.n st.t.own raw with
       | (ok, c, ss, n) =>
         let st := { st with c := c, ss := ss, n := n }
-        if !ok then (false, st)
+        if !ok then (false, st, none)
         else
           match recvAndStore fuel st [] [] [] with
-          | (ok, st) =>
-            if !ok then (false, st)
-            else (true, { st with ss := { st.ss with reqSession := false, lastUpdate := st.n.now } })
+          | (ok, st, g) =>
+            if !ok then (false, st, none)
+            else (true, { st with ss := { st.ss with reqSession := false, lastUpdate := st.n.now } }, g.map fun b => (raw, b))
     | _ =>
       match sendErrorFromHost st.c st.n raw 8 0 txtUnexpectedSync2 with
-      | (_, n) => (false, { st with n := n })
+      | (_, n) => (false, { st with n := n }, none)
+
+/-- `rtr_sync`; `true` = RTR_SUCCESS -/
+def sync (fuel : Nat) (st : St) : Bool × St := ((syncG fuel st).1, (syncG fuel st).2.1)
 
 /-- `rtr_wait_for_sync`; `true` = RTR_SUCCESS -/
 def waitForSync (st : St) : Bool × St :=
